@@ -57,6 +57,10 @@ def scenarios(ctx, thorough):
         sid += 1
         scs.append(S.mk(sid, "ack-" + what.replace("_", "-"), "order", [{"a": "Probe", "tag": 90}, {"a": "Push", "what": what}, {"a": "Probe", "tag": 91},
                         {"a": "Push", "what": what}, {"a": "Settle"}]))
+    # a hundred content-related messages that arrive in another order than their msg_ids were handed out
+    sid += 1
+    scs.append(S.mk(sid, "ack-shuffled-ids", "order", [{"a": "Probe", "tag": 90}, {"a": "Push", "what": "shuffled_ids"}, {"a": "Sleep", "n": 400}, {"a": "Probe", "tag": 91},
+                    {"a": "Settle"}], handler=False, warnings=False))
     for junk in ("unsolicited", "repeated"):
         for at in ("first", "last"):
             sid += 1
